@@ -29,6 +29,9 @@ CHECKS = {
     text="bounded-exhaustive over string literals (every documented escape, quotes, comment markers, newline, non-ASCII / non-BMP, 4 quote styles, raw strings): TLC checks the design-level lexing laws on the model; for each literal the value SQLite returns and the single string token each dialect's tokenizer reads from the emitted SQL must be the specified code points, and the surrounding statement must keep its token shape; numeric spellings are compared on digit sequences (exact for integers up to i64, 15 significant digits for floats)",
     ref="DESIGN.md section 4 C08", cat="model_checking",
     note="trusted: TLC; sqlparser's per-dialect tokenizers as the lexical oracle for the 11 dialects that cannot be executed; SQLite; float fidelity is only required to 15 significant digits (TLC has no floating point)"),
+ "C09": dict(tech="TLA+ L1 language machine run over user tables/columns named like generated ones (table_N, _expr_N) with distinguishable contents (Prql.tla, PrqlMC, PrqlTrace); TLA+ identifier model (Ident.tla: which names must be quoted, admissible quote characters) with names enumerated by TLC (IdentMC) and every use validated by TLC (IdentTrace)",
+    text="(a) bounded-exhaustive pipelines forcing sub-queries, helper columns and anonymous CTEs over tables table_0/table_1 with columns _expr_0.._expr_2: any capture of a user object by a generated name changes the executed result or the frame; (b) every name up to a length over an alphabet with upper case, blanks, quotes, $, dots, non-ASCII, plus reserved words and niladic functions, used as column, table and alias: the identifier token of the emitted SQL must carry the name verbatim, be quoted where the specification requires (per dialect quote characters), and SQLite must bind it to the object of exactly that name",
+    ref="DESIGN.md section 4 C09", note=L1NOTE + "; sqlparser's per-dialect tokenizers as lexical oracle; the reserved-word set is a sample of the SQL standard, not each engine's full list"),
  "C10": dict(tech="TLA+ L1 language machine: scope model (known frames, ambiguity, arity) in Prql.tla; every ill-formed behaviour of PrqlMC replayed; acceptance of an ill-formed program rejected by TLC (PrqlTrace)",
     text="every program the bounded model marks ill-formed (reference to a dropped column, ambiguous bare name after join, arity mismatch) must make prqlc::compile return Err; every well-formed one must compile",
     ref="DESIGN.md section 4 C10"),
